@@ -12,7 +12,7 @@ from ..props import c08
 
 ID = 'C17'
 RULE = ('Histories over {original, deepcopy, dill round trip} of one model (up to three live objects): calculate with random '
-        'overrides, compile+call (the compiled function itself is also deep-copied / dilled and both are called), finish() again, '
+        'overrides, editing a constant cell of one object (from_dict of that cell on the live model), compile+call (the compiled function itself is also deep-copied / dilled and both are called), finish() again, '
         'to_dict(), write(), in any interleaving, 2-10 steps; every observed result must equal the independent evaluation and the '
         'same call on a FRESH model, whatever was done to the sibling objects before. Second part: formula-level compiled functions '
         '(Parser().ast(f)[1].compile()) copied with deepcopy/dill and called interleaved with different arguments, each result '
@@ -21,7 +21,7 @@ RULE = ('Histories over {original, deepcopy, dill round trip} of one model (up t
 ASSUMPTIONS = ['a copy carries no cells/books (the repo\'s __getstate__ drops them): re-finishing a copy is only required not to disturb the other objects',
                'circular models are compared with a fresh model only (their exact marking is C10)']
 WATCHDOG_S = 240
-FLOORS = {'two-objects': ('frac', 0.3), 'op:copy:dill': ('count', {'quick': 20, 'thorough': 300})}
+FLOORS = {'two-objects': ('frac', 0.2), 'op:copy:dill': ('count', {'quick': 20, 'thorough': 300})}
 
 
 def check_history(case):
@@ -111,7 +111,7 @@ def check_case(case):
 
 
 def _histories(tier):
-    return H.histories(tier, max_ops=10, objects=('A', 'B', 'C'), copies=('deepcopy', 'dill', 'deepcopy'), fcopies=True, end_with_calc=True, start_with_copy=True)
+    return H.histories(tier, max_ops=10, objects=('A', 'B', 'C'), copies=('deepcopy', 'dill', 'deepcopy'), fcopies=True, end_with_calc=True, start_with_copy=True, edits=True)
 
 
 def _fcopies(tier):
